@@ -502,7 +502,7 @@ func genC15Join(w *bufio.Writer, rng *hx.Rng, tier string) {
 
 	// random: longer sequences, PRNG classifiers, nested paths, several stream tags, time-outs
 	// placed where the instance is busy (and a few where it is not: the documented panic)
-	nrand := 1500
+	nrand := 3000
 	if tier == "thorough" {
 		nrand = 40000
 	}
@@ -549,7 +549,7 @@ var c15TplLines = []string{
 
 func genC15JT(w *bufio.Writer, rng *hx.Rng, tier string) {
 	all := []string{"go_panic", "cs_exception", "go_data_race"}
-	nrand := 600
+	nrand := 1500
 	if tier == "thorough" {
 		nrand = 15000
 	}
@@ -662,7 +662,7 @@ func genC15(w *bufio.Writer, rng *hx.Rng, tier string) {
 //	c15.pipe <nprocs> <negate> <max> <startRe> <contRe> <nstreams> stream…
 //	    stream = <sourceID> <streamName> <n> item…
 //	    item   = P | E <id> <startOK> <contOK> <tree>     (tree = {"log":…,"stream":<name>,"id":<id>})
-//	result = <ncalls> call… <nstreams> (<nout> <tree>…)… ok
+//	result = <ncalls> call… <nstreams> (<nout> <tree>…)… (ok | stuck)
 //	    call = <instance> (T <tag> | E <id>) R <res> <nprop> (<tag> <tree>)… (N | E <tag> <tree>)
 //
 // A real pipeline (fake input, devnull output, one `join` action) runs with <nprocs> processors.
@@ -950,7 +950,7 @@ func execC15Pipe(t *hx.Toks) string {
 			for k, it := range st.items {
 				if it.pause {
 					// quiet = everything fed so far went through Do and no run is open
-					if !deadline(5*time.Second, func() bool { return rec.doneEv[tag] == fed && !busy(tag) }) {
+					if !deadline(10*time.Second, func() bool { return rec.doneEv[tag] == fed && !busy(tag) }) {
 						stuck = true
 					}
 					continue
@@ -963,7 +963,7 @@ func execC15Pipe(t *hx.Toks) string {
 	wg.Wait()
 	// the end: every event seen, no run open (pending runs are closed by the stream time-out),
 	// and everything that was sent on has arrived at the output
-	done := deadline(8*time.Second, func() bool {
+	done := deadline(15*time.Second, func() bool {
 		n, want := 0, 0
 		for tag := range streams {
 			n += rec.doneEv[tag]
@@ -980,8 +980,9 @@ func execC15Pipe(t *hx.Toks) string {
 		return n == nevents && rec.nout == want
 	})
 	p.Stop()
+	end := "ok"
 	if !done || stuck {
-		return "stuck"
+		end = "stuck" // the trace so far is still reported: the oracle can say which hypothesis broke
 	}
 
 	rec.mu.Lock()
@@ -1011,12 +1012,12 @@ func execC15Pipe(t *hx.Toks) string {
 			fmt.Fprintf(&sb, " %s", tr)
 		}
 	}
-	sb.WriteString(" ok")
+	sb.WriteString(" " + end)
 	return sb.String()
 }
 
 func genC15Pipe(w *bufio.Writer, rng *hx.Rng, tier string) {
-	ncases := 24
+	ncases := 50
 	if tier == "thorough" {
 		ncases = 320
 	}
@@ -1312,7 +1313,7 @@ func genC15K8s(w *bufio.Writer, rng *hx.Rng, tier string) {
 	}
 	rec(nil)
 
-	nrand := 1500
+	nrand := 3000
 	if tier == "thorough" {
 		nrand = 40000
 	}
